@@ -1,6 +1,7 @@
 package checkers
 
 import (
+	"fmt"
 	"go/ast"
 	"go/constant"
 	"math"
@@ -40,6 +41,11 @@ type badRegexpChecker struct {
 	parser *syntax.Parser
 	cause  ast.Expr
 
+	// Messages already reported for the current cause:
+	// all warnings are attached to the pattern argument, so the same
+	// problem in two places of one pattern would be printed twice.
+	reported map[string]bool
+
 	flagStates  []regexpFlagState
 	goodAnchors []syntax.Position
 }
@@ -69,6 +75,7 @@ func (c *badRegexpChecker) VisitExpr(x ast.Expr) {
 			return
 		}
 		c.cause = call.Args[0]
+		c.reported = map[string]bool{}
 		c.checkPattern(pat)
 	}
 }
@@ -440,17 +447,22 @@ func (c *badRegexpChecker) isGoodAnchor(e syntax.Expr) bool {
 }
 
 func (c *badRegexpChecker) warnf(format string, args ...interface{}) {
-	c.ctx.Warn(c.cause, format, args...)
+	msg := fmt.Sprintf(format, args...)
+	if c.reported[msg] {
+		return
+	}
+	c.reported[msg] = true
+	c.ctx.Warn(c.cause, "%s", msg)
 }
 
 func (c *badRegexpChecker) warnSloppyCharRange(rng, charClass string) {
-	c.ctx.Warn(c.cause, "suspicious char range `%s` in %s", rng, charClass)
+	c.warnf("suspicious char range `%s` in %s", rng, charClass)
 }
 
 func (c *badRegexpChecker) warnCharClassDup(x, y, charClass string) {
 	if x == y {
-		c.ctx.Warn(c.cause, "`%s` is duplicated in %s", x, charClass)
+		c.warnf("`%s` is duplicated in %s", x, charClass)
 	} else {
-		c.ctx.Warn(c.cause, "`%s` intersects with `%s` in %s", x, y, charClass)
+		c.warnf("`%s` intersects with `%s` in %s", x, y, charClass)
 	}
 }
